@@ -324,12 +324,31 @@ def r5(ctx: Ctx) -> None:
     nst = 0
     from ..kit import is_helper
 
+    def series_of(base: Term) -> List[str]:
+        """the series an element store goes into: self.<series>, one of two chosen by a conditional
+        expression, or a series that is being extended (self.<series> + fresh slots)"""
+        b = strip_ver(base)
+        if b[0] == "attr" and b[2] in SERIES:
+            return [b[2]] if key(strip_ver(b[1])) == "self" else ["?" + b[2]]
+        if b[0] == "ifexp":
+            l_, r_ = series_of(b[2]), series_of(b[3])
+            return l_ + r_ if l_ and r_ else []
+        if b[0] == "bin" and b[1] == "+":
+            return series_of(b[2])
+        return []
+
     for f in funcs:
         if is_helper(f) and ctx.cg.sites_calling(f.qualname) and all(s_.caller.cls is f.cls for s_ in ctx.cg.sites_calling(f.qualname)):
             for s_ in ctx.cg.sites_calling(f.qualname):
                 if s_.caller not in funcs:
                     funcs.append(s_.caller)
-            continue  # a private helper of Market: its stores are judged in its callers, where its arguments are known
+            # a private helper of Market: its stores are judged in its callers, where its arguments are known;
+            # a store at a fixed slot (an index that does not depend on anything it is given) is judged here
+            for hp in ctx.paths(f.qualname):
+                for e in hp.walk_events(True):
+                    if e.kind == "store" and e.attr is None and series_of(e.base) and strip_ver(e.index)[0] == "const":
+                        ctx.violated(f, e.node, f"store into {series_of(e.base)[0]} at the current time", "index == self.time", f"slot {short(e.index)} is written whenever {f.name} runs, whatever the time: a recorded value is overwritten later")
+            continue
         for p in ctx.paths(f.qualname):
             if p.exit[0] == "raise":
                 continue
@@ -337,13 +356,14 @@ def r5(ctx: Ctx) -> None:
             for e in p.walk_events(True):
                 if e.kind == "store" and e.attr == "time" and key(strip_ver(e.base)) == "self":
                     now = e.value
-                if e.kind == "store" and e.attr is None and e.base[0] == "attr" and e.base[2] in SERIES:
-                    if key(strip_ver(e.base[1])) != "self":
-                        ctx.violated(f, e.node, f"element store into {e.base[2]} of another object", "markets write only their own series", short(e.target))
+                if e.kind == "store" and e.attr is None and series_of(e.base):
+                    sn = series_of(e.base)
+                    if any(x.startswith("?") for x in sn):
+                        ctx.violated(f, e.node, f"element store into {sn[0][1:]} of another object", "markets write only their own series", short(e.target))
                         continue
                     nst += 1
                     d = diff_const(strip_ver(e.index), strip_ver(now)) if e.index[0] != "slice" else None
-                    ctx.check(d is not None and d == 0, f, e.node, f"store into {e.base[2]} at the current time", f"index == {short(now)}", short(e.index))
+                    ctx.check(d is not None and d == 0, f, e.node, f"store into {' / '.join(sn)} at the current time", f"index == {short(now)}", short(e.index))
                 if e.kind == "store" and e.attr in SERIES:
                     q = f.qualname
                     if f.name == "__init__":
